@@ -162,7 +162,7 @@ Inductive dres := NeedMore | Bad | Got (f : frame) (rsv2 rsv3 : bool) (rest : by
 
 Definition decode_frame (b : bytes) : dres :=
   match peek b with
-  | PNeed | PUnknown => NeedMore
+  | PNeed | PUnknown _ => NeedMore
   | PBad => Bad
   | PKnown h =>
       if has_len b (frame_total h) then
